@@ -96,8 +96,21 @@ def main():
                     if kind == 'quant' and info.get('ticking') and k == 0:
                         # witness rules once more with the constants mentioned in descending order
                         variants += [dict(v, setup='consts_desc') for v in info['variants'] if v['setup'] == 'consts']
+                    if kind == 'modal' and info.get('ticking') and k == 0:
+                        # witness rules once more on a branch where a PREDECESSOR world (1 R 0) already carries the
+                        # witness sentences: a new world is still required
+                        variants += [dict(v, setup='noaccess', pred_has_witness=True) for v in info['variants'] if v['setup'] == 'noaccess']
                     for var in variants:
-                        applied, env = pr.apply_rule(logic, info, ctx, var['setup'], s)
+                        extra_nodes = None
+                        if var.get('pred_has_witness'):
+                            from pytableaux.proof import anode, sdwnode
+                            extra_nodes = [anode(1, 0)]
+                            for a_ in var['applied']:
+                                for g in a_.get('adds', ()):
+                                    for n in g:
+                                        if 's' in n and n.get('w') == 'new':
+                                            extra_nodes.append(sdwnode(inst(n['s'], ctx, None, ctx.ca), n['d'], 1))
+                        applied, env = pr.apply_rule(logic, info, ctx, var['setup'], s, extra_nodes)
                         w0 = env['w']
                         exp_all, got_all = [], []
                         if len(applied) != len(var['applied']):
